@@ -387,6 +387,16 @@ type cacheTrial struct {
 	hist   []histEntry
 	hash   []interface{}
 	judged int
+	// For re-creating the exact state when a crash is isolated: the seed the
+	// state was built from, the clock at the start and everything applied since.
+	stateSeed  int64
+	startClock int64
+	applied    []appliedOp
+}
+
+type appliedOp struct {
+	op string           // maintenance call, or "" for a message
+	n  *pb.Notification // the message as handed to GnmiUpdate (copy taken before the call)
 }
 
 func (ct *cacheTrial) violation(entry, class string, pi *panicInfo, op string, msg proto.Message) {
@@ -410,21 +420,54 @@ func (e *cacheEnv) stateFor(n *pb.Notification) *cacheState {
 	return st
 }
 
+// rebuild re-creates the trial's cache as it was just before the last applied
+// message: same state seed, same clock, same sequence of calls.
+func (ct *cacheTrial) rebuild() *cacheEnv {
+	var env *cacheEnv
+	atomic.StoreInt64(&vclock, ct.startClock)
+	if guard(func() { env = buildState(ct.env.kind, rand.New(rand.NewSource(ct.stateSeed)), ct.startClock-2*int64(time.Second)) }) != nil {
+		return nil
+	}
+	for _, a := range ct.applied[:len(ct.applied)-1] {
+		var pi *panicInfo
+		if a.n != nil {
+			c := proto.Clone(a.n).(*pb.Notification)
+			pi = guard(func() { env.c.GnmiUpdate(c) })
+		} else {
+			pi = runMaintenance(env, a.op)
+		}
+		if pi != nil {
+			env.close()
+			return nil
+		}
+	}
+	return env
+}
+
 // culprit finds, for a multi-part notification that panicked, the part at
 // which the same kind of failure recurs when the parts are replayed one by
 // one, in processing order, as single-part notifications (through the same
-// guarded call) -- first against a fresh cache in the trial's kind of state,
-// then against an empty one. It returns that part and the state it failed in
-// (which includes the effect of the earlier parts); if the failure does not
-// recur that way, the whole message and its state.
+// guarded call) against a re-creation of the cache as it was before the
+// message (failing that: a fresh cache in the trial's kind of state, then an
+// empty one). It returns that part and the state it failed in (which includes
+// the effect of the earlier parts); if the failure does not recur that way,
+// the whole message and its state.
 func (ct *cacheTrial) culprit(n *pb.Notification, st *cacheState, pi *panicInfo) (*pb.Notification, *cacheState, string) {
 	parts := singleParts(n)
 	if len(parts) == 0 {
 		return n, st, ""
 	}
-	for _, variant := range []string{ct.env.kind, "empty"} {
+	for _, variant := range []string{"the re-created", "a fresh " + ct.env.kind, "an empty"} {
 		var env *cacheEnv
-		if guard(func() { env = buildState(variant, rand.New(rand.NewSource(1)), baseTS-2*int64(time.Second)) }) != nil {
+		switch variant {
+		case "the re-created":
+			env = ct.rebuild()
+		case "an empty":
+			guard(func() { env = buildState("empty", rand.New(rand.NewSource(1)), baseTS) })
+		default:
+			guard(func() { env = buildState(ct.env.kind, rand.New(rand.NewSource(1)), baseTS-2*int64(time.Second)) })
+		}
+		if env == nil {
 			continue
 		}
 		for i, sp := range parts {
@@ -436,7 +479,7 @@ func (ct *cacheTrial) culprit(n *pb.Notification, st *cacheState, pi *panicInfo)
 			if p2 := guard(func() { env.c.GnmiUpdate(c) }); p2 != nil {
 				if p2.Kind == pi.Kind {
 					env.close()
-					return sp, sst, fmt.Sprintf("replaying the parts one by one on a fresh %q cache, part %d fails the same way: %s", variant, i, ptext(sp))
+					return sp, sst, fmt.Sprintf("replaying the parts one by one on %s cache, part %d fails the same way: %s", variant, i, ptext(sp))
 				}
 				break
 			}
@@ -495,6 +538,7 @@ func (ct *cacheTrial) message(n *pb.Notification, wire []byte) string {
 	}
 	before := e.snap
 	var err error
+	ct.applied = append(ct.applied, appliedOp{n: proto.Clone(n).(*pb.Notification)})
 	pi := guard(func() { err = e.c.GnmiUpdate(n) })
 	ct.r.Eval(1)
 	ct.judged++
@@ -541,7 +585,26 @@ func (ct *cacheTrial) maintain(op string) {
 		ct.hist = ct.hist[len(ct.hist)-12:]
 	}
 	confused := ct.confused()
-	var pi *panicInfo
+	ct.applied = append(ct.applied, appliedOp{op: op})
+	pi := runMaintenance(e, op)
+	ct.r.Eval(1)
+	ct.r.Count("cache_maintenance_"+strings.SplitN(op, ":", 2)[0], 1)
+	if pi != nil {
+		class := fallbackClass(pi.Kind, nil)
+		if confused {
+			class = "meta-leaf-type-confusion"
+		}
+		ct.r.Count("cache_refresh_panics", 1)
+		ct.violation("cache-refresh", class, pi, op, nil)
+		return
+	}
+	if pi := e.snapshot(); pi != nil {
+		ct.violation("cache-query", fallbackClass(pi.Kind, nil), pi, "Query after "+op, nil)
+	}
+}
+
+// runMaintenance performs one of the calls that re-read what was stored.
+func runMaintenance(e *cacheEnv, op string) (pi *panicInfo) {
 	switch {
 	case op == "UpdateMetadata":
 		atomic.AddInt64(&vclock, int64(latencyPeriod))
@@ -566,20 +629,7 @@ func (ct *cacheTrial) maintain(op string) {
 			}
 		})
 	}
-	ct.r.Eval(1)
-	ct.r.Count("cache_maintenance_"+strings.SplitN(op, ":", 2)[0], 1)
-	if pi != nil {
-		class := fallbackClass(pi.Kind, nil)
-		if confused {
-			class = "meta-leaf-type-confusion"
-		}
-		ct.r.Count("cache_refresh_panics", 1)
-		ct.violation("cache-refresh", class, pi, op, nil)
-		return
-	}
-	if pi := e.snapshot(); pi != nil {
-		ct.violation("cache-query", fallbackClass(pi.Kind, nil), pi, "Query after "+op, nil)
-	}
+	return pi
 }
 
 func (ct *cacheTrial) finish() {
@@ -623,8 +673,8 @@ func sortedKeys(m map[string]int) []string {
 
 func startCacheTrial(r *vlib.Run, mode string, trial int, rng *rand.Rand, kind string, ts int64) *cacheTrial {
 	atomic.StoreInt64(&vclock, ts+int64(time.Second))
-	ct := &cacheTrial{r: r, mode: mode, trial: trial, rng: rng}
-	if pi := guard(func() { ct.env = buildState(kind, rng, ts-int64(time.Second)) }); pi != nil {
+	ct := &cacheTrial{r: r, mode: mode, trial: trial, rng: rng, stateSeed: rng.Int63(), startClock: ts + int64(time.Second)}
+	if pi := guard(func() { ct.env = buildState(kind, rand.New(rand.NewSource(ct.stateSeed)), ts-int64(time.Second)) }); pi != nil {
 		// Building the state only replays well-formed messages and the refresh calls.
 		ct.env = &cacheEnv{kind: kind}
 		ct.violation("cache-refresh", "state-build:"+fallbackClass(pi.Kind, nil), pi, "building cache state "+kind, nil)
